@@ -173,33 +173,31 @@ def r20_4(ctx: Ctx) -> RuleResult:
     # exact key first
     gi = ctx.repo.require_func("JSONPointer._getitem")
     params = [a.arg for a in gi.node.args.args]
-    tries = [n for n in gi.node.body if isinstance(n, ast.Try)]
-    first_ok = False
-    if tries:
-        first = tries[0].body[0] if tries[0].body else None
-        if (
-            isinstance(first, ast.Return) and isinstance(first.value, ast.Call) and callee_name(first.value) == "getitem"
-            and len(first.value.args) == 2 and path_of(first.value.args[0]) == params[1] and path_of(first.value.args[1]) == params[2]
-        ):
-            # the key must not have been rewritten before
-            reassigned = any(
-                isinstance(n, ast.Assign) and any(path_of(t) == params[2] for t in n.targets)
-                for s in gi.node.body[: gi.node.body.index(tries[0])] for n in ast.walk(s)
-            )
-            first_ok = not reassigned
-    # no other value may be returned before the exact key has been tried: every other
-    # `return` sits in an `except` handler of that very `try`
-    if first_ok:
-        from sa.flow import parent_map
+    from sa.flow import parent_map
 
+    stored = {n.id for n in ast.walk(gi.node) if isinstance(n, ast.Name) and isinstance(n.ctx, (ast.Store, ast.Del))}
+    exact_txt = f"getitem({params[1]}, {params[2]})"
+    first_ok = False
+    the_try: Optional[ast.Try] = None
+    if not ({params[1], params[2]} & stored):
+        for t in [n for n in gi.node.body if isinstance(n, ast.Try)]:
+            # the exact lookup is the first thing the `try` evaluates
+            head = t.body[0] if t.body else None
+            hv = getattr(head, "value", None)
+            if isinstance(head, (ast.Return, ast.Assign)) and hv is not None and ast.unparse(hv) == exact_txt:
+                the_try = t
+                break
+    if the_try is not None:
+        first_ok = True
         parents = parent_map(gi.node)
-        exact = tries[0].body[0]
-        for r in [n for n in ast.walk(gi.node) if isinstance(n, ast.Return) and n is not exact]:
-            cur = r
+        for r in [n for n in ast.walk(gi.node) if isinstance(n, ast.Return) and n.value is not None]:
+            if ast.unparse(expand_locals(gi.node, r.value)) == exact_txt:
+                continue  # the result of the exact lookup itself
+            cur: Optional[ast.AST] = r
             inside = False
             while cur is not None:
                 par = parents.get(id(cur))
-                if isinstance(cur, ast.ExceptHandler) and par is tries[0]:
+                if isinstance(cur, ast.ExceptHandler) and par is the_try:
                     inside = True
                 cur = par
             if not inside:
